@@ -6,6 +6,15 @@ use crate::fw::{mhttp, Ctx, RunSpec, Tier, Verdict};
 use serde_json::Value;
 
 pub fn spec(tier: Tier) -> RunSpec {
+    let mut s = spec0(tier);
+    // Server::process on a mock transport (whose read reports end of stream) returns within microseconds; a call that has not
+    // returned after 60 s never will - the worker that runs it would be lost for good
+    s.case_limit_s = 60;
+    s.hang_is_violation = true;
+    s
+}
+
+fn spec0(tier: Tier) -> RunSpec {
     super::base_spec(
         8,
         "G-REQ: structured requests (coherent requests to every endpoint of the demo application and free combinations of method/target/version/headers/body with hostile values: \
@@ -58,14 +67,37 @@ pub fn eval(ctx: &Ctx, c: &ServerCase) -> Verdict {
     ctx.judge(problems, nontrivial, classes)
 }
 
+/// Raw client bytes (corpus files, fuzzer inputs): no panic, exactly one parseable response, error status where the pre-parser demands it.
+pub fn judge_bytes(ctx: &Ctx, bytes: &[u8], bufsize: usize, app: AppKind) -> Verdict {
+    let e = examine_bytes(bytes.to_vec(), bufsize, app, false, Default::default());
+    let mut problems = vec![];
+    match &e.out.result {
+        Err((m, loc)) => problems.push((format!("panic:{}:{}", panic_module(loc), m), format!("panic at {}; {}", loc, describe(&e)))),
+        Ok(_) => match &e.resp {
+            Err(p) => problems.push((p.sig.clone(), describe(&e))),
+            Ok(r) => {
+                let (ps, _) = mhttp::wellformed(r, e.no_body_by_method.unwrap_or(false));
+                for p in ps { if (p.sig == "content-length-differs-from-body" || p.sig == "body-on-head-or-options") && e.no_body_by_method.is_some() { problems.push((format!("not-exactly-one-response:{}", p.sig), format!("{}; {}", p.detail, describe(&e)))); } }
+                if let LineClass::MustReject(why) = &e.line { if r.status < 400 { problems.push((format!("unparseable-request-answered-{}xx", r.status / 100), format!("pre-parser: {}; {}", why, describe(&e)))); } }
+                if app == AppKind::ReturnsErr && r.status < 400 { problems.push(("handler-error-answered-without-error-status".into(), describe(&e))); }
+            }
+        },
+    }
+    ctx.judge(problems, true, vec![])
+}
+
 pub fn run(ctx: &Ctx) {
     crate::fw::inproc::init_env();
     let _tree = match fixed_docroot() { Ok(t) => t, Err(e) => { ctx.inconclusive(&format!("docroot: {}", e)); return; } };
     // saved corpus (fuzzer findings, fixtures): raw request bytes, replayed with the default buffer
     ctx.set_section("corpus");
-    replay_corpus(ctx, "c04", |ctx, bytes| {
-        let e = examine_bytes(bytes.to_vec(), 10000, AppKind::Real, false, Default::default());
-        match &e.out.result { Err((m, loc)) => Verdict::fail(format!("panic:{}:{}", panic_module(loc), m), describe(&e)), Ok(_) => match &e.resp { Err(p) => Verdict::fail(p.sig.clone(), describe(&e)), Ok(_) => Verdict::pass(true) } }
+    // corpus files carry the fuzz target's selector byte first (buffer size, application kind), then the client bytes
+    replay_corpus(ctx, "c04", |ctx, data| {
+        if data.is_empty() { return Verdict::pass(false); }
+        let sel = data[0];
+        let bufsize = [10000usize, 10000, 256, 100000][(sel & 3) as usize];
+        let app = match (sel >> 2) & 3 { 1 => AppKind::ReturnsErr, 2 => AppKind::Fixed, _ => AppKind::Real };
+        judge_bytes(ctx, &data[1..], bufsize, app)
     });
     ctx.prop("generated", ctx.share(ctx.scale(40_000, 3_000_000)), server_case_strategy(false), |c| eval(ctx, c));
     std::env::set_current_dir("/").ok();
@@ -91,9 +123,12 @@ pub fn replay(ctx: &Ctx, section: &str, case: &Value) -> Verdict {
     crate::fw::inproc::init_env();
     let _tree = match fixed_docroot() { Ok(t) => t, Err(e) => return Verdict::fail("replay-docroot-failed", e.to_string()) };
     if let Some(b) = case.get("bytes").and_then(|b| b.as_str()) {
-        let bytes = crate::fw::util::unescape_bytes(b);
-        let e = examine_bytes(bytes, 10000, AppKind::Real, false, Default::default());
-        return match &e.out.result { Err((m, loc)) => Verdict::fail(format!("panic:{}:{}", panic_module(loc), m), describe(&e)), Ok(_) => match &e.resp { Err(p) => Verdict::fail(p.sig.clone(), describe(&e)), Ok(_) => Verdict::pass(true) } };
+        let data = crate::fw::util::unescape_bytes(b);
+        if data.is_empty() { return Verdict::pass(false); }
+        let sel = data[0];
+        let bufsize = [10000usize, 10000, 256, 100000][(sel & 3) as usize];
+        let app = match (sel >> 2) & 3 { 1 => AppKind::ReturnsErr, 2 => AppKind::Fixed, _ => AppKind::Real };
+        return judge_bytes(ctx, &data[1..], bufsize, app);
     }
     let _ = section;
     match serde_json::from_value::<ServerCase>(case.clone()) {
